@@ -99,6 +99,12 @@ func timeNode(t time.Time) node {
 // projectValue turns a Go value into a value node.
 func projectValue(v reflect.Value) node {
 	t := v.Type()
+	if !v.CanAddr() && v.CanInterface() {
+		// work on an addressable copy so that unexported fields below can be read
+		c := reflect.New(t).Elem()
+		c.Set(v)
+		v = c
+	}
 	switch t {
 	case timeT:
 		return timeNode(fieldIface(v).(time.Time))
@@ -190,7 +196,12 @@ func projectValue(v reflect.Value) node {
 func rawBytes(v reflect.Value) []byte {
 	if !v.CanAddr() {
 		c := reflect.New(v.Type()).Elem()
-		c.Set(v)
+		if v.CanInterface() {
+			c.Set(v)
+		} else {
+			// value read out of an unexported field of a non-addressable struct
+			c.SetFloat(v.Float())
+		}
 		v = c
 	}
 	return append([]byte{}, unsafe.Slice((*byte)(v.Addr().UnsafePointer()), v.Type().Size())...)
